@@ -12,7 +12,17 @@
 Optional: VERIF_MUTANT=<dir> — every *.go file in that directory replaces the /repo file of the
 same name (used for detection demos; the replacement is still passed through the sync rewrite).
 """
-import json, os, re, sys, glob, hashlib
+import json, os, re, sys, glob, hashlib, tempfile
+
+
+def atomic_write(path, text):
+    """write-then-rename so that a concurrent build never sees a truncated file"""
+    d = os.path.dirname(path)
+    fd, tmp = tempfile.mkstemp(dir=d, prefix=".tmp-")
+    with os.fdopen(fd, "w") as f:
+        f.write(text)
+    os.replace(tmp, path)
+
 
 REPO = os.environ.get("VERIF_REPO", "/repo")
 VERIF = os.path.dirname(os.path.dirname(os.path.dirname(os.path.abspath(__file__))))
@@ -45,7 +55,7 @@ for dst, f in sorted(src.items()):
         want.add(o)
         old = open(o).read() if os.path.exists(o) else None
         if old != rewritten:
-            open(o, "w").write(rewritten)
+            atomic_write(o, rewritten)
         replace[dst] = o
 
 for f in sorted(glob.glob(os.path.join(VERIF, "engine", "overlay", "sarama", "*.go"))):
@@ -67,5 +77,5 @@ for o in glob.glob(os.path.join(OUT, "*.go")):
 p = os.path.join(VERIF, ".build", name)
 new = json.dumps({"Replace": replace}, indent=1, sort_keys=True)
 if not os.path.exists(p) or open(p).read() != new:
-    open(p, "w").write(new)
+    atomic_write(p, new)
 print(p)
